@@ -32,7 +32,7 @@ def run(P):
         out = ''
         rc = 0
         for pr in PROPS.split(','):
-            q = subprocess.run(['/verif/bin/fxcheck', '-prop', pr, '-verif', vdir],
+            q = subprocess.run([os.environ.get('FXBIN', '/verif/bin/fxcheck'), '-prop', pr, '-verif', vdir],
                                env=dict(os.environ, FXCHECK_OVERLAY=','.join(ov)), capture_output=True, text=True)
             out += q.stdout + q.stderr
             rc |= q.returncode
